@@ -145,6 +145,25 @@ end subroutine tile
 }
 
 
+def _steps_source():
+    """systematic family of 2-deep nests with literal non-unit steps: inner step x outer step"""
+    lines = ["subroutine steps(a, n, m)", "  integer, intent(in) :: n, m", "  real, intent(inout) :: a(n, m)",
+             "  integer :: i, j"]
+    for outer in STEP_OUTER:
+        for inner in STEP_INNER:
+            oh = f"do j = 1, m, {outer}" if outer > 0 else f"do j = m, 1, {outer}"
+            ih = f"do i = 1, n, {inner}" if inner > 0 else f"do i = n, 1, {inner}"
+            lines += [f"  {oh}", f"    {ih}", f"      a(i, j) = {abs(outer)}.0 + {abs(inner)}.0", "    end do", "  end do"]
+    lines.append("end subroutine steps")
+    return "\n".join(lines) + "\n"
+
+
+STEP_INNER = [1, 3, 8, 33, -8, 40]
+STEP_OUTER = [1, 3, 8, -3]
+STEP_SIZES = [None, 2, 4, 8, 32, 40]
+EXTRA["steps"] = _steps_source()
+
+
 def _spec_of(name):
     if name in EXTRA:
         return {"kind": "minif", "name": name, "source": EXTRA[name]}
@@ -232,8 +251,24 @@ def model_cases(chk, rng, budget_s):
             for verbose in (False, True):
                 jobs.append(("a2l", prog, S.path_of(n, tree.root), verbose))
     rng.shuffle(jobs)
-    for j in jobs:
-        if time.time() > t_end:
+    # systematic family first (never cut by the time budget): every nest of "steps" x every size, for the tiling
+    # and for chunking its outer and inner loop -- hits size < |step| <= 32 (default chunk size) in every run
+    first = []
+    sprog = S.Program(_spec_of("steps"), common.REPO)
+    stree = sprog.fresh()
+    for n in stree.root.walk(Loop):
+        p = S.path_of(n, stree.root)
+        outer = isinstance(n.loop_body.children[0], Loop)
+        for size in STEP_SIZES:
+            if outer:
+                first.append(("tile", sprog, p, None if size is None else {"tilesize": size}))
+            if size in (None, 4, 8) or outer:
+                first.append(("chunk", sprog, p, None if size is None else {"chunksize": size}))
+        if outer:
+            first.append(("swap", sprog, p, None))
+    jobs = first + jobs
+    for k, j in enumerate(jobs):
+        if k >= len(first) and time.time() > t_end:
             break
         try:
             if j[0] in ("tile", "chunk", "swap"):
